@@ -67,6 +67,9 @@ type World struct {
 	keys    []*simnode.Key
 	gkey    *simnode.Key
 	seq     int
+	// Ballast > 0 adds two "none" transactions with a payload of that many bytes,
+	// paid by the genesis account, to every block built from ops.
+	Ballast int
 }
 
 // NewWorld starts the factory node (its blockchain only ever holds genesis; its
@@ -263,6 +266,23 @@ func (w *World) build(id, parent int, diffIdx int, dt int64, txops []simrt.Op, r
 			blk.Txs = append(blk.Txs, tx)
 		}
 	}
+	if w.Ballast > 0 && !raw && len(blk.Txs) > 0 {
+		for k := 0; k < 2; k++ {
+			pay := make([]byte, w.Ballast)
+			copy(pay, fmt.Sprintf("ballast-%d-%d-", id, k))
+			for i := 24; i < len(pay); i++ {
+				pay[i] = byte(id*31 + k*7 + i)
+			}
+			tx := &types.Transaction{Execer: []byte("none"), Payload: pay, To: addrOfExec(w.Cfg, "none"), Nonce: int64(id)*10 + int64(k) + 880000, ChainID: w.Cfg.GetChainID()}
+			tx.Fee = 1000000
+			tx.Sign(types.SECP256K1, w.gkey.Priv)
+			if fee, err := tx.GetRealFee(w.Cfg.GetMinTxFeeRate()); err == nil && fee > tx.Fee {
+				tx.Fee = fee
+				tx.Sign(types.SECP256K1, w.gkey.Priv)
+			}
+			blk.Txs = append(blk.Txs, tx)
+		}
+	}
 	if raw {
 		blk.Txs = nil
 		for _, tx := range rawTxs {
@@ -398,7 +418,7 @@ func addrOfExec(cfg *types.Chain33Config, name string) string {
 type View struct {
 	Height  int64
 	Last    *types.Header
-	Hashes  [][]byte            // height -> hash
+	Hashes  [][]byte             // height -> hash
 	Details []*types.BlockDetail // height -> block + receipts
 	TDs     []string
 	Tx      map[string]string // tx hash -> "height/index/receipt-ty" or "absent"
